@@ -240,7 +240,7 @@ Lemma moved_ns f f' : moved f f' -> f_ns f' = f_ns f. Proof. intros H. rewrite <
 
 (* a frame marked as finished by exitWith (position behind its last instruction, die flag) completes whatever its exit behaviour *)
 Lemma complete_dead r c f fc rest top vals :
-  Good r c -> r_defects r = [] -> c_frames c = f :: fc :: rest -> f_pos f = S (length (f_code f)) -> f_die f = true ->
+  Good r c -> quirks r = ([], 0) -> c_frames c = f :: fc :: rest -> f_pos f = S (length (f_code f)) -> f_die f = true ->
   c_values c = top ++ vals -> length vals = f_base f ->
   let c4 := set_values (set_frames c (fc :: rest)) (match top with [] => VNil | x :: _ => x end :: vals) in
   Steps r (upd_cur r c4) /\ Good (upd_cur r c4) c4.
@@ -257,7 +257,7 @@ Proof.
                | None => Ok (FDone, r, set_frames c (f :: fc :: rest)) end = Ok (FDone, r, set_frames c (f :: fc :: rest))).
   { destruct (f_exit f); [rewrite A1, ED; reflexivity|reflexivity]. }
   destruct (f_exit f) as [b|]; [rewrite A1, ED; cbn [andb negb]|]; cbn [bindr]; rewrite E;
-    cbn [c_frames set_frames length]; rewrite Nat.eqb_refl; unfold defect; rewrite D; cbn [existsb];
+    cbn [c_frames set_frames length]; rewrite Nat.eqb_refl; unfold defect; rewrite (quirks_defects _ D); cbn [existsb];
     set (c1 := set_frames c (f :: fc :: rest));
     (destruct top as [|x top];
      [ cbn [app] in EV;
@@ -284,7 +284,7 @@ Proof.
   eexists _, _. split; [exact S1|]. split.
   - split; [exact G1|]. split; [reflexivity|]. split.
     + apply match_upd. destruct M as [F N]. split; [|exact N]. inversion F as [|sc f0 scs fs FM F' E1 E2]; subst. cbn. rewrite <- E1. cbn. exact F'.
-    + split; [cbn; lia|rewrite defects_upd_cur; exact D].
+    + split; [cbn; lia|rewrite quirks_upd_cur; exact D].
   - cbn. f_equal. destruct top as [|x top]; cbn in RR.
     + rewrite RR. reflexivity.
     + destruct RR as (-> & NN & _). destruct reg; reflexivity.
@@ -306,7 +306,7 @@ Lemma scope_run_z s vars b out s3 r1 c0 fc rest :
   ScopeEnds (enter s vars) RNil (compile_block b) out s3 ->
   let newf := mk_frame (cur_ns c0) (compile_block b) None None (mvars vars) in
   let c1 := push_value (push_frame c0 newf) VNil in
-  Good r1 c1 -> r_defects r1 = [] -> c_frames c0 = fc :: rest -> Match s r1 (fc :: rest) -> f_base fc <= length (c_values c0) ->
+  Good r1 c1 -> quirks r1 = ([], 0) -> c_frames c0 = fc :: rest -> Match s r1 (fc :: rest) -> f_base fc <= length (c_values c0) ->
   exists r' c' fc' rest', Steps r1 r' /\ Mach (pop_scope s3) r' c' fc' rest' /\ c_values c' = cv (val_of out) :: c_values c0 /\
     kept fc fc' /\ Forall2 kept rest rest'.
 Proof.
@@ -437,7 +437,7 @@ Definition loop_over (r:rt) (c:context) (f:frame) (rest0:list frame) (b:behavior
              Ok (BrOk, b', r, set_values (set_frames c (set_pos f (S (f_pos f)) :: rest0)) (top2 ++ vals)).
 
 Lemma complete_loop r c f fc rest b top2 vals :
-  Good r c -> r_defects r = [] -> c_frames c = f :: fc :: rest -> f_pos f = length (f_code f) ->
+  Good r c -> quirks r = ([], 0) -> c_frames c = f :: fc :: rest -> f_pos f = length (f_code f) ->
   f_exit f = Some b -> f_die f = false -> loop_over r c f (fc :: rest) b top2 vals -> length vals = f_base f ->
   let c4 := set_values (set_frames c (fc :: rest)) (match top2 with [] => VNil | x :: _ => x end :: vals) in
   Steps r (upd_cur r c4) /\ Good (upd_cur r c4) c4.
@@ -452,7 +452,7 @@ Proof.
   rewrite A1, A2. cbn [f_exit set_pos f_die]. rewrite EX, ED. cbn [andb negb].
   rewrite HE. cbn [bindr]. rewrite E.
   unfold upd_top. cbn [c_frames set_frames set_values length]. rewrite Nat.eqb_refl.
-  unfold defect. rewrite D. cbn [existsb].
+  unfold defect. rewrite (quirks_defects _ D). cbn [existsb].
   match goal with |- context [pop_value ?x] => set (c1 := x) end.
   destruct top2 as [|x top2].
   - cbn [app] in c1.
@@ -704,7 +704,7 @@ Proof.
     destruct (proj1 (pure_sim _ _) e v HE r c f rest pre post G EF EC EP B (env_ok_of s r f rest M)) as [S1 NV].
     eexists _, _, _, rest. split; [exact S1|]. split.
     + split; [apply good_adv; exact G|]. split; [reflexivity|]. split; [apply match_upd, match_set_pos; exact M|].
-      split; [cbn; lia|rewrite defects_upd_cur; exact D].
+      split; [cbn; lia|rewrite quirks_upd_cur; exact D].
     + split; [reflexivity|]. split; [apply moved_set_pos|]. split; [reflexivity|apply kept_all_refl].
   - (* local variable *) intros s n v IL HL NN r c f rest pre post MA EC EP. cbn [compile_expr app length] in *.
     eapply push_post; eauto. intros c1 F1. cbn [exec_instr]. rewrite IL. unfold get_variable. rewrite F1.
@@ -730,7 +730,7 @@ Proof.
     + destruct G1 as (_ & _ & _ & _ & _ & _ & SU); exact SU.
     + eexists _, _, _, rest1. split; [eapply steps_trans; [exact S1|exact S2]|]. split.
       * split; [exact G2|]. split; [reflexivity|]. split; [apply match_upd, match_set_pos; exact MM1|].
-        split; [cbn; rewrite (moved_base _ _ MV1); lia|rewrite defects_upd_cur; exact D1].
+        split; [cbn; rewrite (moved_base _ _ MV1); lia|rewrite quirks_upd_cur; exact D1].
       * split; [reflexivity|]. split; [eapply moved_trans; [exact MV1|apply moved_set_pos]|]. split; [cbn; rewrite P1; lia|exact K1].
   - (* pure unary on any operand *) intros s n a va v s1 NL HA IHa HU r c f rest pre post MA EC EP.
     rewrite (compile_unary_nonlit n a NL) in *. rewrite app_length. cbn [length]. rewrite <- app_assoc in EC.
@@ -744,7 +744,7 @@ Proof.
     { destruct G1 as (_ & _ & _ & _ & _ & _ & SU); exact SU. }
     eexists _, _, _, rest1. split; [eapply steps_trans; [exact S1|exact S2]|]. split.
     + split; [exact G2|]. split; [reflexivity|]. split; [apply match_upd, match_set_pos; exact MM1|].
-      split; [cbn; rewrite (moved_base _ _ MV1); lia|rewrite defects_upd_cur; exact D1].
+      split; [cbn; rewrite (moved_base _ _ MV1); lia|rewrite quirks_upd_cur; exact D1].
     + split; [reflexivity|]. split; [eapply moved_trans; [exact MV1|apply moved_set_pos]|]. split; [cbn; rewrite P1; lia|exact K1].
   - (* pure binary on any operands *) intros s n a b va vb v s1 s2 HA IHa HB IHb HBin r c f rest pre post MA EC EP.
     rewrite compile_binary in *. rewrite !app_length. cbn [length]. rewrite <- !app_assoc in EC.
@@ -761,7 +761,7 @@ Proof.
     { destruct G2 as (_ & _ & _ & _ & _ & _ & SU); exact SU. }
     eexists _, _, _, rest2. split; [eapply steps_trans; [exact S1|eapply steps_trans; [exact S2|exact S3]]|]. split.
     + split; [exact G3|]. split; [reflexivity|]. split; [apply match_upd, match_set_pos; exact MM2|].
-      split; [cbn; rewrite (moved_base _ _ MV2), (moved_base _ _ MV1); lia|rewrite defects_upd_cur; exact D2].
+      split; [cbn; rewrite (moved_base _ _ MV2), (moved_base _ _ MV1); lia|rewrite quirks_upd_cur; exact D2].
     + split; [reflexivity|]. split; [eapply moved_trans; [exact MV1|eapply moved_trans; [exact MV2|apply moved_set_pos]]|].
       split; [cbn; rewrite P2, P1; lia|eapply kept_all_trans; eassumption].
   - (* call {..} *) intros s n a b s1 reg s2 HN NL HA IHa HB IHb r c f rest pre post MA EC EP.
@@ -780,7 +780,7 @@ Proof.
     { rewrite lower_idem, HN. fold c0. cbn [cv]. unfold op_unary. cbn [String.eqb Ascii.eqb Bool.eqb]. rewrite TH. reflexivity. }
     { destruct G1 as (_ & _ & _ & _ & _ & _ & SU); exact SU. }
     destruct (scope_run_z s1 [("_this", this_of s1)] b reg s2 _ c0 (set_pos f1 (S (f_pos f1))) rest1 (scope_ends_of_body _ _ _ _ _ IHb) G2) as (r3 & c3 & fc3 & rest3 & S3 & M3 & EV3 & K3 & KR3).
-    { rewrite defects_upd_cur; exact D1. } { reflexivity. } { apply match_upd, match_set_pos; exact MM1. }
+    { rewrite quirks_upd_cur; exact D1. } { reflexivity. } { apply match_upd, match_set_pos; exact MM1. }
     { cbn. rewrite (moved_base _ _ MV1); exact B. }
     eexists _, _, fc3, rest3. split; [eapply steps_trans; [exact S1|eapply steps_trans; [exact S2|exact S3]]|]. split; [exact M3|].
     split; [exact EV3|]. split; [eapply moved_trans; [exact MV1|eapply moved_trans; [apply (moved_set_pos f1 (S (f_pos f1)))|apply kept_moved; exact K3]]|].
@@ -800,7 +800,7 @@ Proof.
     { rewrite lower_idem, HN. reflexivity. }
     { destruct G2 as (_ & _ & _ & _ & _ & _ & SU); exact SU. }
     destruct (scope_run_z s2 [("_this", va)] b reg s3 _ c0 (set_pos f2 (S (f_pos f2))) rest2 (scope_ends_of_body _ _ _ _ _ IHb) G3) as (r4 & c4 & fc4 & rest4 & S4 & M4 & EV4 & K4 & KR4).
-    { rewrite defects_upd_cur; exact D2. } { reflexivity. } { apply match_upd, match_set_pos; exact MM2. }
+    { rewrite quirks_upd_cur; exact D2. } { reflexivity. } { apply match_upd, match_set_pos; exact MM2. }
     { cbn. rewrite (moved_base _ _ MV2), (moved_base _ _ MV1); exact B. }
     eexists _, _, fc4, rest4. split; [eapply steps_trans; [exact S1|eapply steps_trans; [exact S2|eapply steps_trans; [exact S3|exact S4]]]|].
     split; [exact M4|]. split; [exact EV4|].
@@ -817,7 +817,7 @@ Proof.
     { destruct G1 as (_ & _ & _ & _ & _ & _ & SU); exact SU. }
     eexists _, _, _, rest1. split; [eapply steps_trans; [exact S1|exact S2]|]. split.
     + split; [exact G2|]. split; [reflexivity|]. split; [apply match_upd, match_set_pos; exact MM1|].
-      split; [cbn; rewrite (moved_base _ _ MV1); lia|rewrite defects_upd_cur; exact D1].
+      split; [cbn; rewrite (moved_base _ _ MV1); lia|rewrite quirks_upd_cur; exact D1].
     + split; [reflexivity|]. split; [eapply moved_trans; [exact MV1|apply moved_set_pos]|]. split; [cbn; rewrite P1; lia|exact K1].
   - (* {..} else {..} *) intros s n a b x y s1 s2 HN HA IHa HB IHb r c f rest pre post MA EC EP.
     rewrite compile_binary in *. rewrite !app_length. cbn [length]. rewrite <- !app_assoc in EC.
@@ -833,7 +833,7 @@ Proof.
     { destruct G2 as (_ & _ & _ & _ & _ & _ & SU); exact SU. }
     eexists _, _, _, rest2. split; [eapply steps_trans; [exact S1|eapply steps_trans; [exact S2|exact S3]]|]. split.
     + split; [exact G3|]. split; [reflexivity|]. split; [apply match_upd, match_set_pos; exact MM2|].
-      split; [cbn; rewrite (moved_base _ _ MV2), (moved_base _ _ MV1); lia|rewrite defects_upd_cur; exact D2].
+      split; [cbn; rewrite (moved_base _ _ MV2), (moved_base _ _ MV1); lia|rewrite quirks_upd_cur; exact D2].
     + split; [reflexivity|]. split; [eapply moved_trans; [exact MV1|eapply moved_trans; [exact MV2|apply moved_set_pos]]|].
       split; [cbn; rewrite P2, P1; lia|eapply kept_all_trans; eassumption].
   - (* if false then {..} *) intros s n a b x s1 s2 HN HA IHa HB IHb r c f rest pre post MA EC EP.
@@ -850,7 +850,7 @@ Proof.
     { destruct G2 as (_ & _ & _ & _ & _ & _ & SU); exact SU. }
     eexists _, _, _, rest2. split; [eapply steps_trans; [exact S1|eapply steps_trans; [exact S2|exact S3]]|]. split.
     + split; [exact G3|]. split; [reflexivity|]. split; [apply match_upd, match_set_pos; exact MM2|].
-      split; [cbn; rewrite (moved_base _ _ MV2), (moved_base _ _ MV1); lia|rewrite defects_upd_cur; exact D2].
+      split; [cbn; rewrite (moved_base _ _ MV2), (moved_base _ _ MV1); lia|rewrite quirks_upd_cur; exact D2].
     + split; [reflexivity|]. split; [eapply moved_trans; [exact MV1|eapply moved_trans; [exact MV2|apply moved_set_pos]]|].
       split; [cbn; rewrite P2, P1; lia|eapply kept_all_trans; eassumption].
   - (* if true then {..} *) intros s n a b x s1 s2 reg s3 HN HA IHa HB IHb HX IHx r c f rest pre post MA EC EP.
@@ -867,7 +867,7 @@ Proof.
     { rewrite (moved_base _ _ MV2), (moved_base _ _ MV1); exact B. } { discriminate. } { discriminate. } { rewrite lower_idem, HN. reflexivity. }
     { destruct G2 as (_ & _ & _ & _ & _ & _ & SU); exact SU. }
     destruct (scope_run_z s2 [] x reg s3 _ c0 (set_pos f2 (S (f_pos f2))) rest2 (scope_ends_of_body _ _ _ _ _ IHx) G3) as (r4 & c4 & fc4 & rest4 & S4 & M4 & EV4 & K4 & KR4).
-    { rewrite defects_upd_cur; exact D2. } { reflexivity. } { apply match_upd, match_set_pos; exact MM2. }
+    { rewrite quirks_upd_cur; exact D2. } { reflexivity. } { apply match_upd, match_set_pos; exact MM2. }
     { cbn. rewrite (moved_base _ _ MV2), (moved_base _ _ MV1); exact B. }
     eexists _, _, fc4, rest4. split; [eapply steps_trans; [exact S1|eapply steps_trans; [exact S2|eapply steps_trans; [exact S3|exact S4]]]|].
     split; [exact M4|]. split; [exact EV4|].
@@ -888,7 +888,7 @@ Proof.
     { rewrite lower_idem, HN. destruct cnd; reflexivity. }
     { destruct G2 as (_ & _ & _ & _ & _ & _ & SU); exact SU. }
     destruct (scope_run_z s2 [] (if cnd then x else y) reg s3 _ c0 (set_pos f2 (S (f_pos f2))) rest2 (scope_ends_of_body _ _ _ _ _ IHx) G3) as (r4 & c4 & fc4 & rest4 & S4 & M4 & EV4 & K4 & KR4).
-    { rewrite defects_upd_cur; exact D2. } { reflexivity. } { apply match_upd, match_set_pos; exact MM2. }
+    { rewrite quirks_upd_cur; exact D2. } { reflexivity. } { apply match_upd, match_set_pos; exact MM2. }
     { cbn. rewrite (moved_base _ _ MV2), (moved_base _ _ MV1); exact B. }
     eexists _, _, fc4, rest4. split; [eapply steps_trans; [exact S1|eapply steps_trans; [exact S2|eapply steps_trans; [exact S3|exact S4]]]|].
     split; [exact M4|]. split; [exact EV4|].
@@ -908,7 +908,7 @@ Proof.
     { destruct G2 as (_ & _ & _ & _ & _ & _ & SU); exact SU. }
     eexists _, _, _, rest2. split; [eapply steps_trans; [exact S1|eapply steps_trans; [exact S2|exact S3]]|]. split.
     + split; [exact G3|]. split; [reflexivity|]. split; [apply match_upd, match_set_pos; exact MM2|].
-      split; [cbn; rewrite (moved_base _ _ MV2), (moved_base _ _ MV1); lia|rewrite defects_upd_cur; exact D2].
+      split; [cbn; rewrite (moved_base _ _ MV2), (moved_base _ _ MV1); lia|rewrite quirks_upd_cur; exact D2].
     + split; [reflexivity|]. split; [eapply moved_trans; [exact MV1|eapply moved_trans; [exact MV2|apply moved_set_pos]]|].
       split; [cbn; rewrite P2, P1; lia|eapply kept_all_trans; eassumption].
   - (* {..} forEach / count []  *) intros s n a x body k s1 s2 HN HK HA IHa HX IHx r c f rest pre post MA EC EP.
@@ -926,7 +926,7 @@ Proof.
     { destruct G2 as (_ & _ & _ & _ & _ & _ & SU); exact SU. }
     eexists _, _, _, rest2. split; [eapply steps_trans; [exact S1|eapply steps_trans; [exact S2|exact S3]]|]. split.
     + split; [exact G3|]. split; [reflexivity|]. split; [apply match_upd, match_set_pos; exact MM2|].
-      split; [cbn; rewrite (moved_base _ _ MV2), (moved_base _ _ MV1); lia|rewrite defects_upd_cur; exact D2].
+      split; [cbn; rewrite (moved_base _ _ MV2), (moved_base _ _ MV1); lia|rewrite quirks_upd_cur; exact D2].
     + split; [reflexivity|]. split; [eapply moved_trans; [exact MV1|eapply moved_trans; [exact MV2|apply moved_set_pos]]|].
       split; [cbn; rewrite P2, P1; lia|eapply kept_all_trans; eassumption].
   - (* [] apply / select / findIf {..} *) intros s n a x body k s1 s2 HN HK HA IHa HX IHx r c f rest pre post MA EC EP.
@@ -944,7 +944,7 @@ Proof.
     { destruct G2 as (_ & _ & _ & _ & _ & _ & SU); exact SU. }
     eexists _, _, _, rest2. split; [eapply steps_trans; [exact S1|eapply steps_trans; [exact S2|exact S3]]|]. split.
     + split; [exact G3|]. split; [reflexivity|]. split; [apply match_upd, match_set_pos; exact MM2|].
-      split; [cbn; rewrite (moved_base _ _ MV2), (moved_base _ _ MV1); lia|rewrite defects_upd_cur; exact D2].
+      split; [cbn; rewrite (moved_base _ _ MV2), (moved_base _ _ MV1); lia|rewrite quirks_upd_cur; exact D2].
     + split; [reflexivity|]. split; [eapply moved_trans; [exact MV1|eapply moved_trans; [exact MV2|apply moved_set_pos]]|].
       split; [cbn; rewrite P2, P1; lia|eapply kept_all_trans; eassumption].
   - (* {..} forEach / count [x0, ..] *) intros s n a x body x0 arr k s1 s2 acc s3 HN HK LF HA IHa HX IHx HI IHi r c f rest pre post MA EC EP.
@@ -973,7 +973,7 @@ Proof.
           constructor; [|constructor; [exact FM|exact F']].
           split; [apply kvars0_match|split; [|reflexivity]].
           cbn. destruct FM as (_ & NS & _). unfold cur_ns_of. rewrite <- E1. exact NS.
-        + split; [cbn; lia|rewrite defects_upd_cur; exact D2].
+        + split; [cbn; lia|rewrite quirks_upd_cur; exact D2].
       - split; [reflexivity|]. exists [VNil]. split; [reflexivity|]. split; [reflexivity|]. split; [discriminate|left; reflexivity]. }
     { right. reflexivity. }
     { reflexivity. } { reflexivity. } { reflexivity. } { apply kb_init. } { reflexivity. } { reflexivity. } { exact LF. } { reflexivity. }
@@ -1008,7 +1008,7 @@ Proof.
           constructor; [|constructor; [exact FM|exact F']].
           split; [apply kvars0_match|split; [|reflexivity]].
           cbn. destruct FM as (_ & NS & _). unfold cur_ns_of. rewrite <- E1. exact NS.
-        + split; [cbn; lia|rewrite defects_upd_cur; exact D2].
+        + split; [cbn; lia|rewrite quirks_upd_cur; exact D2].
       - split; [reflexivity|]. exists [VNil]. split; [reflexivity|]. split; [reflexivity|]. split; [discriminate|left; reflexivity]. }
     { right. reflexivity. }
     { reflexivity. } { reflexivity. } { reflexivity. } { apply kb_init. } { reflexivity. } { reflexivity. } { exact LF. } { reflexivity. }
@@ -1032,7 +1032,7 @@ Proof.
     { destruct G2 as (_ & _ & _ & _ & _ & _ & SU); exact SU. }
     eexists _, _, _, rest2. split; [eapply steps_trans; [exact S1|eapply steps_trans; [exact S2|exact S3]]|]. split.
     + split; [exact G3|]. split; [reflexivity|]. split; [apply match_upd, match_set_pos; exact MM2|].
-      split; [cbn; rewrite (moved_base _ _ MV2), (moved_base _ _ MV1); lia|rewrite defects_upd_cur; exact D2].
+      split; [cbn; rewrite (moved_base _ _ MV2), (moved_base _ _ MV1); lia|rewrite quirks_upd_cur; exact D2].
     + split; [reflexivity|]. split; [eapply moved_trans; [exact MV1|eapply moved_trans; [exact MV2|apply moved_set_pos]]|].
       split; [cbn; rewrite P2, P1; lia|eapply kept_all_trans; eassumption].
   - (* lazy operator, right side evaluated *) intros s n a b x sk s1 s2 out s3 HN HA IHa HB IHb HX IHx r c f rest pre post MA EC EP.
@@ -1050,7 +1050,7 @@ Proof.
     { rewrite lower_idem. exact (proj1 (lazy_vm _ sk _ r2 c0 HN)). }
     { destruct G2 as (_ & _ & _ & _ & _ & _ & SU); exact SU. }
     destruct (scope_run_z s2 [] x out s3 _ c0 (set_pos f2 (S (f_pos f2))) rest2 (scope_ends_of_body _ _ _ _ _ IHx) G3) as (r4 & c4 & fc4 & rest4 & S4 & M4 & EV4 & K4 & KR4).
-    { rewrite defects_upd_cur; exact D2. } { reflexivity. } { apply match_upd, match_set_pos; exact MM2. }
+    { rewrite quirks_upd_cur; exact D2. } { reflexivity. } { apply match_upd, match_set_pos; exact MM2. }
     { cbn. rewrite (moved_base _ _ MV2), (moved_base _ _ MV1); exact B. }
     eexists _, _, fc4, rest4. split; [eapply steps_trans; [exact S1|eapply steps_trans; [exact S2|eapply steps_trans; [exact S3|exact S4]]]|].
     split; [exact M4|]. split; [exact EV4|].
@@ -1067,7 +1067,7 @@ Proof.
     { destruct G1 as (_ & _ & _ & _ & _ & _ & SU); exact SU. }
     eexists _, _, _, rest1. split; [eapply steps_trans; [exact S1|exact S2]|]. split.
     + split; [exact G2|]. split; [reflexivity|]. split; [apply match_upd, match_set_pos; exact MM1|].
-      split; [cbn; rewrite (moved_base _ _ MV1); lia|rewrite defects_upd_cur; exact D1].
+      split; [cbn; rewrite (moved_base _ _ MV1); lia|rewrite quirks_upd_cur; exact D1].
     + split; [reflexivity|]. split; [eapply moved_trans; [exact MV1|apply moved_set_pos]|]. split; [cbn; rewrite P1; lia|exact K1].
   - (* from / to / step *) intros s n a b var fr to st x fr' to' st' s1 s2 HN HA IHa HB IHb r c f rest pre post MA EC EP.
     rewrite compile_binary in *. rewrite !app_length. cbn [length]. rewrite <- !app_assoc in EC.
@@ -1084,7 +1084,7 @@ Proof.
     { destruct G2 as (_ & _ & _ & _ & _ & _ & SU); exact SU. }
     eexists _, _, _, rest2. split; [eapply steps_trans; [exact S1|eapply steps_trans; [exact S2|exact S3]]|]. split.
     + split; [exact G3|]. split; [reflexivity|]. split; [apply match_upd, match_set_pos; exact MM2|].
-      split; [cbn; rewrite (moved_base _ _ MV2), (moved_base _ _ MV1); lia|rewrite defects_upd_cur; exact D2].
+      split; [cbn; rewrite (moved_base _ _ MV2), (moved_base _ _ MV1); lia|rewrite quirks_upd_cur; exact D2].
     + split; [reflexivity|]. split; [eapply moved_trans; [exact MV1|eapply moved_trans; [exact MV2|apply moved_set_pos]]|].
       split; [cbn; rewrite P2, P1; lia|eapply kept_all_trans; eassumption].
   - (* for .. do {..} over an empty range *) intros s n a b var fr to st body s1 s2 HN HA IHa HB IHb HE r c f rest pre post MA EC EP.
@@ -1102,7 +1102,7 @@ Proof.
     { destruct G2 as (_ & _ & _ & _ & _ & _ & SU); exact SU. }
     eexists _, _, _, rest2. split; [eapply steps_trans; [exact S1|eapply steps_trans; [exact S2|exact S3]]|]. split.
     + split; [exact G3|]. split; [reflexivity|]. split; [apply match_upd, match_set_pos; exact MM2|].
-      split; [cbn; rewrite (moved_base _ _ MV2), (moved_base _ _ MV1); lia|rewrite defects_upd_cur; exact D2].
+      split; [cbn; rewrite (moved_base _ _ MV2), (moved_base _ _ MV1); lia|rewrite quirks_upd_cur; exact D2].
     + split; [reflexivity|]. split; [eapply moved_trans; [exact MV1|eapply moved_trans; [exact MV2|apply moved_set_pos]]|].
       split; [cbn; rewrite P2, P1; lia|eapply kept_all_trans; eassumption].
   - (* for .. do {..} *) intros s n a b var fr to st body s1 s2 acc s3 HN HA IHa HB IHb HE LF HI IHi r c f rest pre post MA EC EP.
@@ -1129,7 +1129,7 @@ Proof.
           constructor; [|constructor; [exact FM|exact F']].
           split; [apply (vars_match_mvars [(lower var, RNum fr)])|split; [|reflexivity]].
           cbn. destruct FM as (_ & NS & _). unfold cur_ns_of. rewrite <- E1. exact NS.
-        + split; [cbn; lia|rewrite defects_upd_cur; exact D2].
+        + split; [cbn; lia|rewrite quirks_upd_cur; exact D2].
       - split; [reflexivity|]. exists [VNil]. split; [reflexivity|]. split; [reflexivity|]. split; [discriminate|left; reflexivity]. }
     { right. reflexivity. }
     { reflexivity. } { reflexivity. } { reflexivity. } { reflexivity. } { exact LF. } { reflexivity. }
@@ -1233,7 +1233,7 @@ Proof.
         + apply match_upd. destruct MM2 as [F N]. split; [|exact N]. cbn. inversion F as [|sc f0 scs fs FM F' E1 E2]; subst.
           constructor; [|constructor; [exact FM|exact F']].
           split; [intros k; reflexivity|split; [|reflexivity]]. cbn. destruct FM as (_ & NS & _). unfold cur_ns_of. rewrite <- E1. exact NS.
-        + split; [cbn; lia|rewrite defects_upd_cur; exact D2].
+        + split; [cbn; lia|rewrite quirks_upd_cur; exact D2].
       - split; [reflexivity|]. exists [VNil]. split; [reflexivity|]. split; [reflexivity|]. split; [discriminate|left; reflexivity]. }
     destruct (scope_ends_of_body _ _ _ _ _ IHb _ _ nf fdie (fc2 :: rest2') (c_values c) [] A3 (or_intror eq_refl) eq_refl eq_refl eq_refl) as (r4 & c4 & fd4 & rest4 & S4 & M4 & EV4 & K4 & KR4).
     { cbn. rewrite (moved_base _ _ MV2), (moved_base _ _ MV1); exact B. }
@@ -1248,7 +1248,7 @@ Proof.
     split.
     + split; [exact G5|]. split; [reflexivity|]. split.
       * apply match_upd. destruct MM4 as [F N]. split; [|exact N]. inversion F as [|sc f0 scs fs FM F' E1 E2]; subst. cbn. rewrite <- E1. cbn. exact F'.
-      * split; [cbn; rewrite (kept_base _ _ Kc), (kept_base _ _ Ka); lia|rewrite defects_upd_cur; exact D4].
+      * split; [cbn; rewrite (kept_base _ _ Kc), (kept_base _ _ Ka); lia|rewrite quirks_upd_cur; exact D4].
     + split; [reflexivity|]. split; [eapply kept_trans; eassumption|eapply kept_all_trans; eassumption].
   - (* no more rounds *) intros k s i body acc. exact I.
   - (* a round, then the rest *) intros k s x rest0 i body acc reg s1 acc1 acc' s' HB IHb KS KO HI IHi.
@@ -1276,7 +1276,7 @@ Proof.
       split.
       { split; [exact G2|]. split; [reflexivity|]. split.
         - apply match_upd. split; [|exact N1]. cbn. rewrite <- E1. cbn. exact F1'.
-        - split; [cbn; rewrite (kept_base _ _ Ka); lia|rewrite defects_upd_cur; exact D1]. }
+        - split; [cbn; rewrite (kept_base _ _ Ka); lia|rewrite quirks_upd_cur; exact D1]. }
       split; [cbn; rewrite HD; reflexivity|split; assumption].
     + (* another element: the pass that goes round is the first pass of the next round *)
       destruct LF as (i0 & code' & LC & LL).
@@ -1295,7 +1295,7 @@ Proof.
             * cbn. rewrite (moved_ns _ _ MV1), ENS, <- (kept_ns _ _ Ka).
               inversion F1' as [|sc2 f00 scs2 fs2 FM2 F1'' E3 E4]. destruct FM2 as (_ & NS2 & _).
               unfold cur_ns_of, pop_scope. cbn. rewrite <- E1. cbn. rewrite <- E3. exact NS2.
-          + split; [cbn; rewrite LB1; lia|rewrite defects_upd_cur; exact D1].
+          + split; [cbn; rewrite LB1; lia|rewrite quirks_upd_cur; exact D1].
         - split; [cbn; exact LB1|]. exists []. split; [reflexivity|reflexivity]. }
       { left. reflexivity. }
       { cbn. rewrite (moved_code _ _ MV1). exact EC. } { reflexivity. } { reflexivity. } { exact KB'. } { cbn. exact XD. }
@@ -1328,7 +1328,7 @@ Proof.
     split.
     { split; [exact G2|]. split; [reflexivity|]. split.
       - apply match_upd. split; [|exact N1]. cbn. rewrite <- E1. cbn. exact F1'.
-      - split; [cbn; rewrite (kept_base _ _ Ka); lia|rewrite defects_upd_cur; exact D1]. }
+      - split; [cbn; rewrite (kept_base _ _ Ka); lia|rewrite quirks_upd_cur; exact D1]. }
     split; [cbn; rewrite HD; reflexivity|split; assumption].
   - (* a round left by exitWith: the loop is over *) intros k s x rest0 i body acc v s1 HB IHb.
     cbn [IterRuns]. intros r c f fc frest below allarr b A FR EC EP EX KB ED SK LF ENS HBf.
@@ -1366,7 +1366,7 @@ Proof.
           * cbn. rewrite (moved_ns _ _ MV1), ENS, <- (kept_ns _ _ Ka).
             inversion F1' as [|sc2 f00 scs2 fs2 FM2 F1'' E3 E4]. destruct FM2 as (_ & NS2 & _).
             unfold cur_ns_of, pop_scope. cbn. rewrite <- E1. cbn. rewrite <- E3. exact NS2.
-        + split; [cbn; rewrite LB1; lia|rewrite defects_upd_cur; exact D1].
+        + split; [cbn; rewrite LB1; lia|rewrite quirks_upd_cur; exact D1].
       - split; [cbn; exact LB1|]. exists []. split; [reflexivity|reflexivity]. }
     { left. reflexivity. }
     { cbn. rewrite (moved_code _ _ MV1). exact EC. } { reflexivity. } { reflexivity. } { cbn. exact XD. }
@@ -1399,7 +1399,7 @@ Proof.
     split.
     { split; [exact G2|]. split; [reflexivity|]. split.
       - apply match_upd. split; [|exact N1]. cbn. rewrite <- E1. cbn. exact F1'.
-      - split; [cbn; rewrite (kept_base _ _ Ka); lia|rewrite defects_upd_cur; exact D1]. }
+      - split; [cbn; rewrite (kept_base _ _ Ka); lia|rewrite quirks_upd_cur; exact D1]. }
     split; [|split; assumption].
     cbn. f_equal. destruct top1 as [|y0 top1]; cbn in RR1.
     + rewrite RR1. reflexivity.
